@@ -1062,8 +1062,17 @@ impl<'a> World<'a> {
 
             // ---- form B: literal ----
             if json_mode {
-                // a string literal is rejected for a Json field by the parser: the grammar has no Json literal
-                o.count("not-expressible:json-filter-literal", 1);
+                // a string literal is rejected for a Json field by the parser (there is no Json literal in a
+                // filter): the only acceptable outcome besides a result is that parse error
+                let lit = literal(&p, 0, self.case.flt_style);
+                let q = format!("query {{ T(order_by(tag asc), {} = {}) {{ tag }} }}", field, lit);
+                match self.run_tag_query(&q, &[], "T") {
+                    Err(Fail::Parse(_)) => o.count("not-expressible:json-filter-literal", 1),
+                    other => {
+                        o.label("pos:filter-literal");
+                        self.judge_set("filter", "literal", &p, other, &must, &dc, None, &FilterCtx { literals_before: vec![] }, None, &q, o)
+                    }
+                }
             } else {
                 let lit_s = literal_string(&p);
                 let plain = lit_s.as_ref().map(|s| literal_is_plain(s, self.case.lit_style)).unwrap_or(true);
